@@ -2146,7 +2146,7 @@ func genTrans(repo, outDir string) error {
 	var sb strings.Builder
 	sb.WriteString("-- REGENERATED by /verif/tools/extract (translate.go) from /repo on every check run. Do not edit.\n")
 	sb.WriteString("-- Go → Lean translation of the whitelisted functions; subset and semantics: tools/extract/translate.go.\n")
-	sb.WriteString("import Corerad.Basic\nimport Corerad.Model.Config\nimport Corerad.Model.ListUtil\n\n")
+	sb.WriteString("import Corerad.Basic\nimport Corerad.Model.Config\nimport Corerad.Model.ListUtil\nimport Corerad.Model.RA\n\n")
 	sb.WriteString("set_option linter.unusedVariables false\n\nnamespace Corerad.Gen.Trans\n\nopen Corerad\n\n")
 	defer func() { curTag = "" }()
 	for _, spec := range whitelist {
@@ -2193,6 +2193,18 @@ func genTrans(repo, outDir string) error {
 		}
 		sb.WriteString(d.text + "\n\n")
 		facts["Trans"+spec.prop+"."+spec.lean] = d.text
+	}
+	// config.Interface.RouterAdvertisement (translate_ra.go)
+	curTag = "TransC04"
+	if p, err := loadPkg(repo, "internal/config"); err != nil {
+		failf("translate: Interface.RouterAdvertisement: %v", err)
+	} else if d, err := translateRA(p); err != nil {
+		failf("%s", err)
+		sb.WriteString("-- NOT TRANSLATED: " + docSafe(err.Error()) + "\n\n")
+		facts["TransC04.Interface_RouterAdvertisement"] = "NOT TRANSLATED: " + err.Error()
+	} else {
+		sb.WriteString(d.text + "\n\n")
+		facts["TransC04.Interface_RouterAdvertisement"] = d.text
 	}
 	sb.WriteString("end Corerad.Gen.Trans\n")
 	p := filepath.Join(outDir, "Trans.lean")
